@@ -23,9 +23,12 @@ from .. import tlc
 
 LEVEL = "model_checking"
 
-# spec constant StrictOrder of Einsum.tla: FALSE = ordered_indices as in the code
-# (equal order values possible); set to True when tf_pwa/einsum.py breaks ties.
-STRICT_ORDER = False
+# spec constant StrictOrder of Einsum.tla.  True: the code since /repo 5d2e6c4 (einsum()
+# re-ranks the result of ordered_indices by (value, index name)); False: the legacy
+# ordering with equal order values, kept in the spec as OrderOfS(p, perm, FALSE).  The
+# iteration orders under which the legacy ordering ties are still replayed on the code
+# (Row.legacy_tied), so a reappearance of the old behaviour is a VIOLATION with TIE_KEY.
+STRICT_ORDER = True
 BATCH_N = 2
 
 TIE_KEY = "einsum:tied_order:wrong_value"
@@ -228,15 +231,18 @@ def run_einsum(ctx):
         raise tlc.MachineryError("Einsum vacuity probe: antecedent of ImplEqualsRef unreachable")
     # design-level finding: with equal order values the algorithm as designed is wrong
     design = {"ran": False}
-    n_tied_programs = sum(1 for p in programs if any(o["tied"] for o in p["orders"]))
-    if not STRICT_ORDER and n_tied_programs:
-        # (always on the quick domain: the counterexample is the same, InitTied is expensive)
-        d = tlc.run("Einsum", _einsum_cfg(ctx, "design", "quick", "InitTied", "Next", ["ImplEqualsRefAlways"]), work=ctx.work,
+    n_tied_programs = sum(1 for p in programs if p["legacy_tied"])
+    if n_tied_programs:
+        # legacy ordering (StrictOrder = FALSE), always on the quick domain (the counterexample
+        # is the same, InitTied is expensive): documents why the legacy-tied orders are replayed
+        d = tlc.run("Einsum", _einsum_cfg(ctx, "design", "quick", "InitTied", "Next", ["ImplEqualsRefAlways"], strict=False), work=ctx.work,
                     coverage=False, workers=8, timeout=1200, expect_violation=True)
         design = {"ran": True, "violated": d.violation, "states": d.distinct}
-        ctx.log("Einsum.tla design probe (ties allowed): ImplEqualsRefAlways %s" % ("VIOLATED on the model" if d.violation else "holds"))
-    ctx.part("einsum_spec", programs=n_all, order_results=n_orders, programs_with_tied_order=n_tied_programs,
-             design_probe=design, strict_order=STRICT_ORDER)
+        if STRICT_ORDER and d.violation != "ImplEqualsRefAlways":
+            raise tlc.MachineryError("legacy ordering probe: expected a counterexample to ImplEqualsRefAlways")
+        ctx.log("Einsum.tla legacy-ordering probe (equal order values allowed): ImplEqualsRefAlways %s" % ("VIOLATED on the model" if d.violation else "holds"))
+    ctx.part("einsum_spec", programs=n_all, order_results=n_orders, programs_with_legacy_tied_order=n_tied_programs,
+             legacy_tied_orders=sum(len(p["legacy_tied"]) for p in programs), legacy_design_probe=design, strict_order=STRICT_ORDER)
 
     # ---------------- binding: the real routine on every program -------------
     dtypes = [np.complex128] if quick else [np.complex128, np.float64]
@@ -262,12 +268,15 @@ def run_einsum(ctx):
         key = "einsum:%s:%s" % (expr, ",".join("x".join(map(str, s)) or "scalar" for s in shapes))
         nontrivial = len(shapes) >= 3 and expected.size > 1
         runs = [(None, False, None)] + [(o["perm"], o["tied"], o["tot"]) for o in p["orders"]]
+        seen_perms = set(tuple(o["perm"]) for o in p["orders"])
+        # iteration orders under which the legacy ordering ties (regression replays; tot unknown)
+        runs += [(q, True, None) for q in p["legacy_tied"] if tuple(q) not in seen_perms]
         declined_here = 0
         for perm, tied, tot in runs:
             for dt in dtypes:
                 status, got, order = _eval_real(E, tf, expr, arrays, perm, dt)
                 n_calls += 1
-                if perm is not None and dt is dtypes[0]:
+                if perm is not None and tot is not None and dt is dtypes[0]:
                     ok = _order_matches(order, tot, tied, perm)
                     if ok is False:
                         n_drift += 1
@@ -276,7 +285,7 @@ def run_einsum(ctx):
                     declined_here += 1
                     continue
                 good = got.shape == expected.shape and np.array_equal(np.real(got), expected) and not np.any(np.imag(got))
-                if perm is not None and tied:
+                if perm is not None and (tied or perm in p["legacy_tied"]):
                     tie_runs += 1
                 if good:
                     continue
@@ -300,7 +309,7 @@ def run_einsum(ctx):
             "what": "ordered_indices gave two contracted indices the same order value; tensor_einsum_reduce_sum then labels the axes of an operand in another order than its data",
             "n_failing_evaluations": len(tie_fail), "programs": sorted(set(d["expr"] for d in tie_fail))[:40], "first": tie_fail[0]})
     ctx.part("einsum_binding", programs=len(programs), evaluations=n_calls, declined=n_declined, wrong_value=n_wrong,
-             wrong_value_with_tied_order=len(tie_fail), evaluations_with_tied_order=tie_runs,
+             wrong_value_with_tied_order=len(tie_fail), evaluations_with_legacy_tied_order=tie_runs,
              disagreements_checked=n_spec, order_model_drift=n_drift, decline_prediction_mismatch=predicted_decline_mismatch,
              dtypes=[np.dtype(d).name for d in dtypes])
     mid = sorted(programs, key=lambda q: (-len(q["shapes"]), q["expr"]))[len(programs) // 3]
